@@ -53,6 +53,9 @@ def gen_cases(ctx):
     for v in [86399, 86400, 86401, 129600, 172800, 1000000]:
         for sk in ("tdelta", "delta", "int"):
             out.append({"k": "period", "sk": sk, "value": v, "text": ""})
+    # fixed: [value, unit] lists whose value is not a whole number (value + 0.5) with every legal unit
+    for v, text in [(1, "h"), (2, "m"), (0, "h"), (5, "s"), (1, "D"), (90, "m")]:
+        out.append({"k": "period", "sk": "list", "value": v, "text": text, "bad_value": True})
     # period spellings
     for _ in range(n // 2):
         v = rng.choice([0, 1, 5, 60, 90, 3600, rng.randint(0, 10**6)])
